@@ -146,7 +146,59 @@ def c14_mc(tier):
             mcjob('MC_Alloc', 'MC_Alloc_wit_unlink', workers=8, witness=True)]
 
 
+def c20_jobs(tier, seed):
+    q = tier == 'quick'
+    jobs = [TraceJob(SMALL, 'fault', shards=8, spec='TraceFault', label='fault@' + SMALL, timeout=3000),
+            TraceJob(TS, 'fault', shards=8, spec='TraceFault', label='fault@' + TS, timeout=3000)]
+    if not q:
+        jobs += [TraceJob(ASAN, 'fault', shards=8, spec='TraceFault', label='fault@' + ASAN, timeout=3400),
+                 TraceJob('small_sse_cache_omp', 'fault', shards=4, spec='TraceFault', label='fault@omp', timeout=3400, env={'OMP_NUM_THREADS': '2'})]
+    return jobs
+
+
+def c19_jobs(tier, seed):
+    return [TraceJob(SMALL, 'kernels', shards=12, label='kernels@' + SMALL), TraceJob(NOSSE, 'kernels', shards=4, label='kernels@' + NOSSE)]
+
+
+def c18_prepare(tier, seed, rundir):
+    """TLC enumerates all valid JCF files of small matrices with all single-token corruptions and truncations"""
+    meta = os.path.join(rundir, 'meta_jcf')
+    rc, o = vlib.sh([V + '/bin/tlc.sh', V + '/spec/gen/Gen_JCF.tla', V + '/spec/gen/Gen_JCF.cfg', meta, '-workers', '1'],
+                    env={'JAVA_TOOL_OPTIONS': '-Xss512m -Xmx4g', 'TLC_TIMEOUT': '600'}, cwd=V + '/spec/gen', timeout=700)
+    shutil.rmtree(meta, ignore_errors=True)
+    cases = []
+    for line in o.splitlines():
+        if line.startswith('<<"CASE", "'):
+            cases.append(line[len('<<"CASE", "'):-3].replace('\\"', '"'))
+    if rc != 0 or not cases:
+        raise Infra('Gen_JCF failed:\n' + o[-2000:])
+    cases = sorted(set(cases))
+    with open(os.path.join(rundir, 'jcf_cases.ndjson'), 'w') as f:
+        f.write('\n'.join(cases) + '\n')
+    log('[gen] Gen_JCF: %d files (valid, every single-token corruption, every truncation)' % len(cases))
+    return {'generated_jcf_files': len(cases)}
+
+
+def c18_jobs(tier, seed, rundir):
+    ex = ['--extra', 'jcf=' + os.path.join(rundir, 'jcf_cases.ndjson')]
+    if tier == 'quick':
+        return [TraceJob(SMALL, 'io', shards=8, args=ex, label='io@' + SMALL), TraceJob(ASAN, 'io', shards=8, args=ex, label='io@' + ASAN)]
+    return [TraceJob(SMALL, 'io', shards=8, args=ex, label='io@' + SMALL, timeout=3000), TraceJob(ASAN, 'io', shards=16, args=ex, label='io@' + ASAN, timeout=3000),
+            TraceJob(NOSSE, 'io', shards=8, args=ex, label='io@' + NOSSE, timeout=3000)]
+
+
 PROPS = {
+    'C18': dict(level='model_checking', reasons=ALG_REASONS | {'padding'}, prepare=c18_prepare, jobs=c18_jobs, mc=lambda tier: [],
+                assumptions=['libpng itself is trusted; process termination by libpng\'s error path counts as rejection (the property allows termination)',
+                             'a truncated but syntactically readable JCF file may be rejected or read up to the cut (both allowed); index errors must be rejected',
+                             'sanitizer findings are observed in the ASan/UBSan build only']),
+    'C19': dict(level='model_checking', reasons=ALG_REASONS | {'padding'}, jobs=c19_jobs, mc=lambda tier: [mcjob('MC_Gray', workers=16)],
+                assumptions=['MC_Gray is exhaustive for k = 1..16 (the complete code book)', 'parity, bit reversal, spread/shrink are checked on complete single-bit bases plus random words',
+                             'the dumped tables are the ones the library uses (read from m4ri_codebook after m4ri_init)']),
+    'C20': dict(level='fault_enumeration', reasons={'fault_free_run_failed', 'not_controlled_abort', 'positions_not_all_injected', 'crash'}, jobs=c20_jobs,
+                mc=lambda tier: [mcjob('MC_AllocFault', workers=4)],
+                assumptions=['only allocation requests issued by m4ri code (malloc/calloc/realloc/posix_memalign at link level) are failed; libpng/libc internal allocations are not',
+                             'one failure per run (the property speaks of a single failed allocation)']),
     'C14': dict(level='model_checking', reasons={'heap_calls', 'fresh_not_zero_or_live_corrupted', 'storage_shared', 'live_matrix_corrupted', 'free_of_non_live_pointer',
                                                  'spec_invariant', 'memory_retained', 'harness_precondition', 'crash'},
                 prepare=c14_prepare, jobs=c14_jobs, mc=c14_mc,
@@ -265,7 +317,16 @@ def run_property(prop, tier, seed):
         # event statistics
         with open(tr) as f:
             for ln in f:
-                if ln.startswith('{"e":"aop"'):
+                if ln.startswith('{"e":"fault"'):
+                    ev = json.loads(ln)
+                    s = {'op': 'fault:' + ev['scn'], 'failed_request': ev['i'], 'of': ev['n'], 'fate': ev['fate']}
+                    key = json.dumps(s, sort_keys=True)
+                    if key not in sigs:
+                        sigs.add(key)
+                        if len(samples) < 6 and (len(sigs) % 131 == 1):
+                            samples.append(s)
+                    perop[s['op']] = perop.get(s['op'], 0) + 1
+                elif ln.startswith('{"e":"aop"'):
                     ev = json.loads(ln)
                     s = {'op': 'alloc:' + ev['op'], 'size': ev['size'], 'heap_calls': [[c[0], c[1]] for c in ev['obs']][:12]}
                     key = json.dumps(s, sort_keys=True)
